@@ -234,15 +234,19 @@ func Run(src string) Real {
 }
 
 // RunTree executes an already parsed tree in a fresh environment.
-func RunTree(stmt ast.Stmt) Real {
+func RunTree(stmt ast.Stmt) Real { return RunTreeWatchdog(stmt, ExecWatchdog, true) }
+
+// RunTreeWatchdog is RunTree with its own watchdog; settle=false skips the
+// goroutine completion barrier (for concurrent callers, whose baseline moves).
+func RunTreeWatchdog(stmt ast.Stmt, watchdog time.Duration, settle bool) Real {
 	e, rec := NewEnv()
-	ctx, cancel := context.WithTimeout(context.Background(), ExecWatchdog)
+	ctx, cancel := context.WithTimeout(context.Background(), watchdog)
 	defer cancel()
 	rec.cancel = cancel
 	c0 := cpuSeconds()
 	base := runtime.NumGoroutine()
 	o := ank.RunCtx(ctx, e, stmt)
-	settled := waitGoroutines(base)
+	settled := !settle || waitGoroutines(base)
 	real := finish(o, rec, ctx)
 	real.Unsettled = !settled
 	if real.TimedOut {
